@@ -863,13 +863,13 @@ def gen_hyper_scene(rng, kind=None):
 def selective_reroute_flags(poly, start, end, conndist):
     """Float twin of Router::markPolylineConnectorsNeedingReroutingForDeletedObstacle (router.cpp) for ONE obstacle (its polygon
     before it was moved / deleted) and one polyline connector (route ends start/end, cached route length conndist): does some edge's
-    estimate fall below conndist?  Mirrors the code as written, including (i) the reflection formula x = (b c + a d)/(b + d) being used
-    whatever the signs of b and d, (ii) `start`/`end` being overwritten by their rotated images in the branch for sloped edges and then
-    reused for the following edges."""
+    estimate fall below conndist?  Mirrors the code as written at /repo aa23288: crossing point of the straight segment when start and end
+    lie on opposite sides of the edge's line, reflection formula x = (b c + a d)/(b + d) otherwise, and `start`/`end` being overwritten by
+    their rotated images in the branch for sloped edges and then reused for the following edges."""
     sx, sy = float(start[0]), float(start[1])
     ex, ey = float(end[0]), float(end[1])
     n = len(poly)
-    opp = reroute_test_has_opposite_side_branch()
+    opp = True      # /repo aa23288: crossing point when the route's ends straddle the edge's line (a tree without it is reported, not classified)
     for i in range(n):
         p1 = (float(poly[i][0]), float(poly[i][1])); p2 = (float(poly[(i + 1) % n][0]), float(poly[(i + 1) % n][1]))
         vertical = False
@@ -914,22 +914,6 @@ def selective_reroute_flags(poly, start, end, conndist):
         if est < conndist:
             return True
     return False
-
-
-_OPP = {}
-
-
-def reroute_test_has_opposite_side_branch():
-    """the twin follows the source under test: a proposed repair of mechanism (i) adds a branch `if ((b * d) < 0)` (crossing point
-    instead of the reflection formula when the route's ends lie on opposite sides of the edge's line)"""
-    if C.REPO not in _OPP:
-        try:
-            src = open(os.path.join(C.REPO, 'cola', 'libavoid', 'router.cpp')).read()
-            body = src[src.index('markPolylineConnectorsNeedingReroutingForDeletedObstacle('):]
-            _OPP[C.REPO] = '(b * d) < 0' in body[:12000]
-        except (OSError, ValueError):
-            _OPP[C.REPO] = False
-    return _OPP[C.REPO]
 
 
 def polyline_length(pts):
